@@ -204,8 +204,15 @@ def check(ctx):
         o.fail(P, 'Maintainer.try_working_requests', node.ast if node is not None and node.ast is not None else 'while i < len(self._request_queue)', msg,
                node=node, file=M.mod.path, line=fn.lineno)
     if head is not None:
-        iv = head.ast.left.id if isinstance(head.ast.left, ast.Name) else head.ast.comparators[0].id
-        rqc = f'self._request_queue[{iv}]'
+        if head.kind == 'for':            # snapshot scan: the loop variable is the order
+            iv = None
+            rqc = kp = head._scan_elem
+            o.count()
+            if P.has_cls('_WorkOrder') and '__eq__' in P.cls('_WorkOrder').methods:
+                o.fail(P, '_WorkOrder.__eq__', '__eq__', 'orders compare by value: removing the visited order with list.remove can remove an equal earlier one', file=M.mod.path, line=fn.lineno)
+        else:
+            iv = kp = head.ast.left.id if isinstance(head.ast.left, ast.Name) else head.ast.comparators[0].id
+            rqc = f'self._request_queue[{iv}]'
         ELs = ExistsLoops({'self._active_requests': '#busy'}, [('same-target', eq_fact('target', f'{rqc}.target'))])
 
         def fits_refine(an_, test, truth, st, frame):
@@ -230,12 +237,12 @@ def check(ctx):
                 nm = call_attr(cl)
                 recv = ctext(cl.func.value, env) if isinstance(cl.func, ast.Attribute) else ''
                 if recv == 'self._request_queue' and nm in ('pop', 'remove'):
-                    arg = ctext(cl.args[0], env, keep=(iv,)) if cl.args else ''
-                    bump('rm' if (nm == 'pop' and arg == iv) or (nm == 'remove' and arg == rqc) else 'rm-wrong')
+                    arg = ctext(cl.args[0], env, keep=(kp,)) if cl.args else ''
+                    bump('rm' if (nm == 'pop' and arg in (iv, f'self._request_queue.index({rqc})')) or (nm == 'remove' and arg == rqc) else 'rm-wrong')
                 elif recv == 'self._request_queue' and nm not in ('copy', 'index', 'count'):
                     bump('queue-' + nm)
                 if recv == 'self._active_requests' and nm in ('append', 'insert', 'remove', 'pop', 'extend'):
-                    bump('activate' if nm == 'append' and cl.args and ctext(cl.args[0], env, keep=(iv,)) == rqc else 'activate-wrong')
+                    bump('activate' if nm == 'append' and cl.args and ctext(cl.args[0], env, keep=(kp,)) == rqc else 'activate-wrong')
                 if nm == 'schedule_event':
                     b_ = bind_call(cl, SCHED_PARAMS)
                     act = b_.get('action')
@@ -244,18 +251,18 @@ def check(ctx):
                         act = r_[0] if r_ else act
                     tgt = None
                     if isinstance(act, ast.Call) and call_attr(act) == 'partial' and act.args and ctext(act.args[0], env) == 'self._start_work_order':
-                        tgt = [ctext(k.value, env, keep=(iv,)) for k in act.keywords if k.arg == 'request'] or [ctext(x, env, keep=(iv,)) for x in act.args[1:]]
+                        tgt = [ctext(k.value, env, keep=(kp,)) for k in act.keywords if k.arg == 'request'] or [ctext(x, env, keep=(kp,)) for x in act.args[1:]]
                     good = sched_event_type(cl) == 'START_WORK' and 'time' in b_ and N.norm(b_['time'], env).is_({'NOW': 1}) and \
                         ctext(b_.get('asset_id', ast.Constant(0)), env) == 'self.id' and tgt == [rqc]
                     bump('start' if good else 'start-wrong')
-            if n.kind == 'stmt' and isinstance(a, ast.Delete) and any(ctext(t, env, keep=(iv,)) == f'self._request_queue[{iv}]' for t in a.targets):
+            if n.kind == 'stmt' and isinstance(a, ast.Delete) and any(ctext(t, env, keep=(kp,)) in (f'self._request_queue[{iv}]', f'self._request_queue[self._request_queue.index({rqc})]') for t in a.targets):
                 bump('rm')
             if n.kind == 'stmt' and isinstance(a, (ast.Assign, ast.AugAssign)):
                 tg = a.targets if isinstance(a, ast.Assign) else [a.target]
                 if any(is_self_attr(t, '_utilization') for t in tg):
                     newv = N.norm(ast.BinOp(left=a.target, op=a.op, right=a.value) if isinstance(a, ast.AugAssign) else a.value, env)
                     bump('util' if newv.is_({'self._utilization': 1, f'{rqc}.needed_capacity': 1}) else 'util-wrong')
-                if any(isinstance(t, ast.Name) and t.id == iv for t in tg):
+                if iv and any(isinstance(t, ast.Name) and t.id == iv for t in tg):
                     newv = N.norm(ast.BinOp(left=a.target, op=a.op, right=a.value) if isinstance(a, ast.AugAssign) else a.value, {})
                     bump('inc' if newv.is_({iv: 1}, 1) else 'inc-wrong')
             return st
@@ -263,7 +270,7 @@ def check(ctx):
         ELs.install(ani)
         ani.refine_hooks.insert(0, fits_refine)
         ani.node_hooks.append(it_hook)
-        starts = [m for l, m in g.succ[head.id] if l == 'T']
+        starts = [m for l, m in g.succ[head.id] if l == getattr(head, '_in_label', 'T')]
         stops = {head.id} | {p for _, p in g.pred[head.id] if g.nodes[p].kind == 'join' and g.nodes[p].note == 'while-head'}
         import itertools
         n_out = 0
@@ -275,7 +282,7 @@ def check(ctx):
             outs = [(sid, st) for sid in stops for st in res.at(sid) if st.flags or True]
             outs = [(sid, st) for sid, st in outs if res.seen[sid][st.key()][1] is not None]
             o.require(outs, 'an iteration of the scan never returns to the loop test')
-            want = {'rm', 'activate', 'util', 'start'} if (fits == 'T' and busy == 'F') else {'inc'}
+            want = {'rm', 'activate', 'util', 'start'} if (fits == 'T' and busy == 'F') else ({'inc'} if iv else set())
             case = f'the order at the current index {"fits" if fits == "T" else "does not fit"} the remaining capacity and its target is {"already being worked on" if busy == "T" else "free"}'
             for sid, st in outs:
                 o.count()
@@ -332,7 +339,8 @@ def check(ctx):
                 o.witness((attr, s.func.name))
             elif s.cls is M or (s.cls is not None and M in s.cls.mro):
                 o.fail(P, s.ctx, s.stmt, f'Maintainer.{attr} is written outside {sorted(owners)}', file=s.mod.path, line=s.line)
-    for attr, allowed in (('_request_queue', {('create_work_order', 'append'), ('try_working_requests', 'pop')}),
+    # (which element try_working_requests may take out of the queue is decided by the scan shape of C12.3)
+    for attr, allowed in (('_request_queue', {('create_work_order', 'append'), ('try_working_requests', 'pop'), ('try_working_requests', 'remove')}),
                           ('_active_requests', {('try_working_requests', 'append'), ('_finish_work_order', 'remove')})):
         for s in inv.attr_uses(P, attr):
             role = s.extra['role']
